@@ -13,7 +13,9 @@ CHECKS = {
     "C02": dict(level="model_checking", design="4/C02",
                 text="Path-exhaustive symbolic execution of the real contains_point/`in` with the query point symbolic over the whole plane; the path "
                      "conditions partition the plane and z3 decides on every cell, for all its points, that the answer equals the crossing-number truth "
-                     "(off the boundary) or the boundary flag (on it). Every cell witness is replayed on the plain library.",
+                     "(off the boundary) or the boundary flag (on it). Curved shapes (circle arcs, quadratic/cubic chains, concrete control points): outside the control boxes of "
+                     "the curved pieces the answer equals the region of the sampled chords (= the curved region there by the convex-hull property); cells inside a control box run the "
+                     "Newton projection and are spot-checked against the exact curved region (z3 over the reals at the witness). Every cell witness is replayed on the plain library.",
                 technique="symbolic execution of the real code (SYMX) + z3 (QF_LRA) per path cell, counterexample replay"),
     "C01": dict(level="model_checking", design="4/C01",
                 text="The real operators (| & - ^ ~ + * unary -, nested expressions) executed under SYMX with one operand translated by a symbolic amount; "
